@@ -1,3 +1,345 @@
-/-! # C14 — property theorems (stub: not built yet) -/
+import PymtlVerif.Proofs.Hier
+/-!
+# C14 — hierarchical names are unique and evaluate back to their objects
+
+Theorems about `Model/Hier.lean`, for every construction description `root`, every object of the
+hierarchy it builds (`Reach root x`: the statically constructed objects and every field / slice
+signal that can ever be created lazily), every nesting depth and list shape.
+
+Vocabulary: an `Item` is `(rec, value)`: the `_dsl` bookkeeping record the code stores on the object
+(`rec.full` = `repr`, `rec.my` = `get_field_name()`, `rec.parent`, `rec.level`, `rec.host`,
+`rec.tls`) and the Python object itself; `rec.pos` is the object's identity (heap location).
+`resolve root name` is Python's `eval(name, {'s': top})`; `namesObj/namesComp/namesSig root q`
+say that the expression `q` evaluates to a NamedObject / Component / Signal.
+-/
 namespace PV.C14
+open PV.Hier
+
+/-- **The breadth-first queue walk of `__setattr_for_elaborate__` / `Signal.__getattr__` gives every
+object in a nested list exactly its index path**: `(d, ix)` is produced iff `d` sits at
+`v[suf…]` of some queue entry `(v, pre)` with `ix = pre ++ suf` (nothing skipped, nothing
+mis-indexed, for every nesting shape). -/
+theorem bfs_indices {α : Type} (q : List (SVal α × List Nat)) (d : Node α) (ix : List Nat) :
+    (d, ix) ∈ bfs q ↔ ∃ v pre suf, (v, pre) ∈ q ∧ ix = pre ++ suf ∧ getPath v suf = some (.one d) :=
+  mem_bfs q d ix
+
+/-- **Evaluating the full name yields that very object**: `eval(repr(o)) is o`, and the name has the
+form `s` followed by the keys of the object's heap location. -/
+theorem resolve_name {root : Desc} {x : Item} (h : Reach root x) :
+    resolve root x.1.full = some (x.1.pos, x.2) ∧ x.2.isObj = true ∧ x.1.full = .root :: x.1.pos := by
+  have hi := reach_inv h
+  refine ⟨?_, hi.obj, hi.full⟩
+  simpa [run] using resolve_extend hi []
+
+/-- **Full names are unique**: two objects of the hierarchy with the same full name are the same
+object (same record, same Python value). -/
+theorem name_injective {root : Desc} {x y : Item} (hx : Reach root x) (hy : Reach root y)
+    (h : x.1.full = y.1.full) : x = y :=
+  full_determines hx hy h
+
+/-- **The bookkeeping of an object is a function of its heap location**: whenever and in whatever
+order a lazily created field / slice signal comes into existence, it gets the same name, parent,
+host, top-level signal (the model's form of "created once, cached in the parent's `__dict__`"). -/
+theorem record_determined {root : Desc} {x y : Item} (hx : Reach root x) (hy : Reach root y)
+    (h : x.1.pos = y.1.pos) : x = y := by
+  apply full_determines hx hy
+  rw [(reach_inv hx).full, (reach_inv hy).full, h]
+
+/-- `q` is a proper prefix of `l` -/
+def IsProperPrefix (q l : Name) : Prop := ∃ t r, l = q ++ t :: r
+
+/-- **`get_parent_object()` is the object named by the longest proper prefix of the name that
+evaluates to a NamedObject** (list prefixes such as `s.x[0]` of `s.x[0][1]` name Python lists). -/
+theorem parent_longest_prefix {root : Desc} {x : Item} (h : Reach root x) (hx : x ≠ rootItem root) :
+    ∃ p, Reach root p ∧ x.1.parent = some p.1.pos ∧ IsProperPrefix p.1.full x.1.full ∧
+      resolve root p.1.full = some (p.1.pos, p.2) ∧
+      ∀ q, IsProperPrefix q x.1.full → namesObj root q = true → q.length ≤ p.1.full.length := by
+  rcases reach_cases h with rfl | ⟨p, hp, hs⟩
+  · exact absurd rfl hx
+  · obtain ⟨sfx, hf⟩ := step_facts hs
+    have hpi := reach_inv hp
+    refine ⟨p, hp, hf.parent, ?_, (resolve_name hp).1, ?_⟩
+    · obtain ⟨t, r, rfl, -, -⟩ := hf.shape
+      exact ⟨t, r, hf.full⟩
+    · intro q hq hn
+      have hmem : q ∈ objPrefixes root x.1.full := by
+        simp only [objPrefixes, List.mem_filter]
+        exact ⟨mem_properPrefixes.2 hq, hn⟩
+      rw [objPrefixes_step hpi hf] at hmem
+      rcases List.mem_append.1 hmem with hm | hm
+      · simp only [objPrefixes, List.mem_filter] at hm
+        exact Nat.le_of_lt (length_lt_of_mem_properPrefixes hm.1)
+      · simp at hm; rw [hm]; exact Nat.le_refl _
+
+/-- the top component has no parent and no object-valued proper prefix -/
+theorem root_parent (root : Desc) : (rootItem root).1.parent = none ∧ objPrefixes root (rootItem root).1.full = [] :=
+  ⟨rfl, objPrefixes_root root⟩
+
+/-- **`get_field_name()` is consistent with the names**: for a non-slice object the full name is the
+parent's full name followed by `.` and the field name (`name[i][j]…`); for a slice `x[lo:hi]` full
+name and field name are the parent signal's followed by `[lo:hi]`, and the parent is not a slice. -/
+theorem field_name {root : Desc} {x : Item} (h : Reach root x) (hx : x ≠ rootItem root) :
+    ∃ p, Reach root p ∧ x.1.parent = some p.1.pos ∧
+      ((x.1.slice = none ∧ x.1.full = p.1.full ++ x.1.my ∧ ∃ name ix, x.1.my = suffixOf name ix) ∨
+       (∃ lo hi, x.1.slice = some (lo, hi) ∧ x.1.full = p.1.full ++ [.slice lo hi] ∧
+          x.1.my = p.1.my ++ [.slice lo hi] ∧ p.1.slice = none)) := by
+  rcases reach_cases h with rfl | ⟨p, hp, hs⟩
+  · exact absurd rfl hx
+  · obtain ⟨sfx, hf⟩ := step_facts hs
+    exact ⟨p, hp, hf.parent, field_name_step hs (reach_inv hp).slice⟩
+
+/-- **`_dsl.level` is the number of proper prefixes of the name that evaluate to a NamedObject**
+(this is what the code computes: parent's level + 1, through interfaces as well); every component /
+interface / method port has a level. -/
+theorem level_counts_prefixes {root : Desc} {x : Item} (h : Reach root x) :
+    (∀ k, x.1.level = some k → k = (objPrefixes root x.1.full).length) ∧
+    (x.1.kind = .comp → x.1.level = some (objPrefixes root x.1.full).length) := by
+  have hl := reach_level h
+  refine ⟨hl.1, fun hc => ?_⟩
+  obtain ⟨d, hd⟩ := node_of_kind_comp (reach_inv h).kind hc
+  obtain ⟨k, hk⟩ := Option.isSome_iff_exists.1 (hl.2 d hd)
+  rw [hk, hl.1 k hk]
+
+/-- **`get_component_level()` is the number of component-valued proper prefixes**, for a component
+all of whose enclosing objects are components (a component stored inside an interface would be
+counted one level deeper by the code: that is the only case excluded). -/
+theorem level_counts_components {root : Desc} {x : Item} (h : Reach root x) (hc : x.1.kind = .comp)
+    (hcomp : ∀ q ∈ objPrefixes root x.1.full, namesComp root q = true) :
+    x.1.level = some ((properPrefixes x.1.full).filter (namesComp root)).length := by
+  rw [(level_counts_prefixes h).2 hc]
+  congr 2
+  simp only [objPrefixes] at hcomp ⊢
+  apply List.filter_congr
+  intro q hq
+  cases hn : namesObj root q with
+  | true => exact (hcomp q (by simp [List.mem_filter, hq, hn])).symm
+  | false =>
+    simp only [names] at hn ⊢
+    cases hr : resolve root q with
+    | none => rfl
+    | some st =>
+      simp only [hr] at hn ⊢
+      cases hcc : st.2.isComp with
+      | false => rfl
+      | true => rw [isObj_of_isComp hcc] at hn; cases hn
+
+/-- **`get_host_component()` is the deepest component-valued proper prefix** of the name of a
+signal / interface / method port (for a component the walk stops at the component itself). -/
+theorem host_deepest_component {root : Desc} (hroot : root.tag = .comp) {x : Item} (h : Reach root x) :
+    (x.1.kind ≠ .comp →
+      ((properPrefixes x.1.full).filter (namesComp root)).getLast? = some (.root :: x.1.host)) ∧
+    (x.1.kind = .comp → x.1.host = x.1.pos) := by
+  have hh := reach_host hroot h
+  have hi := reach_inv h
+  constructor
+  · intro hk
+    have : x.2.isComp = false := by
+      cases hc : x.2.isComp
+      · rfl
+      · exact absurd ((isComp_iff_kind hi.kind).1 hc) hk
+    simpa [compChain, this] using hh
+  · intro hk
+    have : x.2.isComp = true := (isComp_iff_kind hi.kind).2 hk
+    simp only [compChain, this, if_true, List.getLast?_append, List.getLast?_singleton,
+      Option.some_or, Option.some.injEq] at hh
+    rw [hi.full] at hh
+    simpa using hh.symm
+
+/-- **`get_top_level_signal()` is the shortest prefix of the name (the name itself included) that
+evaluates to a Signal** — the signal before the first field / slice token; non-signals have none. -/
+theorem top_level_signal {root : Desc} (hroot : root.tag = .comp) {x : Item} (h : Reach root x) :
+    (x.2.isSig = true → ∃ t, x.1.tls = some t ∧
+      ((properPrefixes x.1.full ++ [x.1.full]).filter (namesSig root)).head? = some (.root :: t)) ∧
+    (x.2.isSig = false → x.1.tls = none) := by
+  have ht := reach_tls hroot h
+  have hi := reach_inv h
+  constructor
+  · intro hs
+    obtain ⟨t, hh, htl⟩ := ht.1 hs
+    refine ⟨t, htl, ?_⟩
+    simpa [sigChain, hs, List.filter_append, names_self hi] using hh
+  · intro hs; exact (ht.2 hs).2
+
+/-- **An int index on a signal is the one-bit slice**: `x[i]` and `x[i:i+1]` evaluate alike. -/
+theorem int_index_is_slice {root : Desc} {x : Item} (h : Reach root x) (hs : x.2.isSig = true) (i : Nat) :
+    resolve root (x.1.full ++ [.idx i]) = resolve root (x.1.full ++ [.slice i (i + 1)]) := by
+  have hi := reach_inv h
+  rw [resolve_extend hi, resolve_extend hi]
+  obtain ⟨r, v⟩ := x
+  cases v with
+  | sig k ty sl => simp only [run, step_idx_eq_slice]
+  | node d => simp [PyVal.isSig] at hs
+  | lst xs => simp [PyVal.isSig] at hs
+  | flst k xs => simp [PyVal.isSig] at hs
+
+/-- **A slice of a slice is the re-based slice of the unsliced signal**: `(x[a:b])[c:d]` evaluates
+to the object `x[a+c:a+d]`, whose parent is `x` and whose name is `repr(x) + "[a+c:a+d]"`. -/
+theorem slice_of_slice {root : Desc} {x : Item} (h : Reach root x) {k : SigKind} {n : Nat}
+    {s : List (String × SVal TTag)} (hv : x.2 = .sig k (.mk (.bits n) s) none)
+    {a b c d : Nat} (hab : a < b) (hbn : b ≤ n) (hcd : c < d) (hd : d ≤ b - a) :
+    ∃ y, sliceItem x (a + c) (a + d) = some y ∧ Reach root y ∧
+      resolve root (x.1.full ++ [.slice a b, .slice c d]) = some (y.1.pos, y.2) ∧
+      y.1.full = x.1.full ++ [.slice (a + c) (a + d)] ∧ y.1.parent = some x.1.pos := by
+  have hi := reach_inv h
+  have h1 : a + c < a + d ∧ a + d ≤ n := by omega
+  obtain ⟨r, v⟩ := x
+  simp only at hv; subst hv
+  have hy : sliceItem (r, PyVal.sig k (.mk (.bits n) s) none) (a + c) (a + d) =
+      some (sliceRec r (a + c) (a + d), .sig k (.mk (.bits (a + d - (a + c))) []) (some (a + c, a + d))) := by
+    simp [sliceItem, h1]
+  refine ⟨_, hy, .slice h hy, ?_, rfl, rfl⟩
+  rw [resolve_extend hi, run_slice_slice _ _ _ _ hab hbn hcd hd]
+  simp [run, step, sliceStep, h1, sliceRec]
+
+/-- **The record of a slice**: created under an unsliced Bits signal for `lo < hi ≤ nbits` only; its
+full / field name append `[lo:hi]`, host and top-level signal are inherited, the class is the
+parent's, and evaluating the name gives the slice. -/
+theorem slice_record {root : Desc} {x y : Item} (h : Reach root x) {lo hi : Nat}
+    (hy : sliceItem x lo hi = some y) :
+    Reach root y ∧ lo < hi ∧ x.1.slice = none ∧ y.1.slice = some (lo, hi) ∧
+      y.1.full = x.1.full ++ [.slice lo hi] ∧ y.1.my = x.1.my ++ [.slice lo hi] ∧
+      y.1.host = x.1.host ∧ y.1.tls = x.1.tls ∧ y.1.kind = x.1.kind ∧
+      resolve root y.1.full = some (y.1.pos, y.2) := by
+  obtain ⟨k, n, s, hv, h1, h2, rfl⟩ := sliceItem_eq_some hy
+  have hr : Reach root _ := .slice h hy
+  exact ⟨hr, h1, (reach_inv h).slice _ _ _ hv, rfl, rfl, rfl, rfl, rfl, rfl, (resolve_name hr).1⟩
+
+/-- **`Reach` misses nothing**: every NamedObject that *any* Python expression over public attribute
+names, list indices, int indices and (nested) slices evaluates to is an object of the hierarchy, so
+the theorems above speak about every object the heap can hold. -/
+theorem resolve_complete {root : Desc} {name : Name} {pos : Pos} {v : PyVal}
+    (h : resolve root name = some (pos, v)) (hv : v.isObj = true)
+    (hpub : ∀ a, Tok.attr a ∈ name → isPublic a = true) :
+    ∃ x, Reach root x ∧ x.1.pos = pos ∧ x.2 = v := by
+  cases name with
+  | nil => simp [resolve] at h
+  | cons t tl =>
+    cases t with
+    | root =>
+      simp only [resolve] at h
+      have hg := good_run (Good.obj (x := rootItem root) .root) h
+        (fun a ha => hpub a (List.mem_cons_of_mem _ ha))
+      generalize hst : (pos, v) = st at hg
+      cases hg with
+      | obj hx => cases hst; exact ⟨_, hx, rfl, rfl⟩
+      | lst => cases hst; simp [PyVal.isObj] at hv
+      | flst => cases hst; simp [PyVal.isObj] at hv
+    | attr a => simp [resolve] at h
+    | idx i => simp [resolve] at h
+    | slice lo hi => simp [resolve] at h
+
+/-- **Everything the executable elaboration (the driver of the correspondence check) returns is an
+object of the hierarchy** in the sense of `Reach`, so all theorems above apply to it. -/
+theorem elab_sound {root : Desc} {accs : List (List Tok)} {items : List Item}
+    (h : elabAll root accs = .ok items) : ∀ x ∈ items, Reach root x := by
+  simp only [elabAll] at h
+  split at h
+  · cases h
+  · rename_i st hst
+    split at h
+    · cases h
+    · split at h
+      · rename_i all hall
+        cases h
+        exact accessAll_sound _ _ _ (staticItems_sound hst) hall
+      · cases h
+
+/-- **Names depend only on the construction description**: elaborating the same description under
+two different histories of lazy accesses gives every object (heap location) the same record — same
+full name, field name, parent, host — and both contain all statically constructed objects, whose
+records do not depend on the accesses at all. -/
+theorem rebuild_same_names {root : Desc} {a₁ a₂ : List (List Tok)} {i₁ i₂ : List Item}
+    (h₁ : elabAll root a₁ = .ok i₁) (h₂ : elabAll root a₂ = .ok i₂) :
+    (∀ x ∈ i₁, ∀ y ∈ i₂, x.1.pos = y.1.pos → x = y) ∧
+    (∃ st, staticItems root = some st ∧ ∀ x ∈ st, x ∈ i₁ ∧ x ∈ i₂) ∧
+    (a₁ = a₂ → i₁ = i₂) := by
+  refine ⟨fun x hx y hy hp => record_determined (elab_sound h₁ x hx) (elab_sound h₂ y hy) hp, ?_, ?_⟩
+  · simp only [elabAll] at h₁ h₂
+    cases hst : staticItems root with
+    | none => simp [hst] at h₁
+    | some st =>
+      refine ⟨st, rfl, fun x hx => ?_⟩
+      simp only [hst] at h₁ h₂
+      cases hd : st.any dupSlots with
+      | true => simp [hd] at h₁
+      | false =>
+        simp only [hd] at h₁ h₂
+        cases hall1 : accessAll root st a₁ with
+        | none => simp [hall1] at h₁
+        | some all1 =>
+          cases hall2 : accessAll root st a₂ with
+          | none => simp [hall2] at h₂
+          | some all2 =>
+            simp only [hall1, hall2] at h₁ h₂
+            cases h₁; cases h₂
+            exact ⟨accessAll_mono _ _ _ hall1 x hx, accessAll_mono _ _ _ hall2 x hx⟩
+  · rintro rfl
+    rw [h₁] at h₂; cases h₂; rfl
+
+/-- **`render` is injective on well-formed names** (`s` followed by attribute / index / slice tokens
+whose attribute names consist of letters, digits and underscores): the string determines the tokens. -/
+theorem render_injective {n₁ n₂ : Name} (h1 : WFName n₁) (h2 : WFName n₂) (h : render n₁ = render n₂) :
+    n₁ = n₂ :=
+  render_injective_wf h1 h2 h
+
+/-- **Distinct objects have distinct `repr` strings**, provided the slot / field names occurring in
+the two names are identifier-like. -/
+theorem repr_unique {root : Desc} {x y : Item} (hx : Reach root x) (hy : Reach root y)
+    (ix : ∀ a, Tok.attr a ∈ x.1.full → IdentLike a) (iy : ∀ a, Tok.attr a ∈ y.1.full → IdentLike a)
+    (h : render x.1.full = render y.1.full) : x = y := by
+  have wf : ∀ {z : Item}, Reach root z → (∀ a, Tok.attr a ∈ z.1.full → IdentLike a) → WFName z.1.full := by
+    intro z hz iz
+    have hi := reach_inv hz
+    refine ⟨z.1.pos, hi.full, fun t ht => ⟨hi.noroot t ht, ?_⟩⟩
+    rintro a rfl
+    exact iz a (by rw [hi.full]; exact List.mem_cons_of_mem _ ht)
+  exact name_injective hx hy (render_injective (wf hx ix) (wf hy iy) h)
+
+/-! ## non-vacuity: a concrete hierarchy on which the hypotheses hold and the objects exist -/
+
+/-- `s.w = [[Ifc()], Sub()]`, `s.x = InPort(struct{a:[Bits8,Bits8]})`, `s.y = Wire(Bits16)` -/
+def exRoot : Desc :=
+  .mk .comp [
+    ("y", .one (.mk (.sig .wire (.mk (.bits 16) [])) [])),
+    ("x", .one (.mk (.sig .inport (.mk .struct [("a", .many [.one (.mk (.bits 8) []), .one (.mk (.bits 8) [])])])) [])),
+    ("w", .many [.many [.one (.mk .ifc [("v", .one (.mk (.sig .outport (.mk (.bits 2) [])) []))])], .one (.mk .comp [])])]
+
+def exIfc : Desc := .mk .ifc [("v", .one (.mk (.sig .outport (.mk (.bits 2) [])) []))]
+
+/-- `s.w[0][0].v` is an object of the hierarchy: level 2, host `s`, its own top-level signal, parent
+`s.w[0][0]`; so the theorems above are not vacuous -/
+example : ∃ x, Reach exRoot x ∧ x.1.full = [.root, .attr "w", .idx 0, .idx 0, .attr "v"] ∧ x.1.level = some 2 ∧
+    x.1.host = [] ∧ x.1.tls = some x.1.pos ∧ x.1.parent = some [.attr "w", .idx 0, .idx 0] := by
+  have h0 : Reach exRoot (rootItem exRoot) := .root
+  have h1 : Reach exRoot (childRec (rootRec exRoot) "w" [0, 0] exIfc, toVal (.one exIfc)) :=
+    .slot h0 (slotItems_intro (d := exRoot) (name := "w") rfl (by simp [slotsOf, exRoot, Node.tag, Node.slots, List.lookup]; rfl)
+      (by decide) rfl)
+  have h2 := Reach.slot h1 (slotItems_intro (d := exIfc) (name := "v") (ix := [])
+    (c := .mk (.sig .outport (.mk (.bits 2) [])) []) rfl
+    (by simp [slotsOf, exIfc, Node.tag, Node.slots]) (by decide) rfl)
+  exact ⟨_, h2, by decide, by decide, by decide, by decide, by decide⟩
+
+/-- the lazily created `s.x.a[1][2:5]` exists, with parent `s.x.a[1]` and top-level signal `s.x` -/
+example : ∃ x, Reach exRoot x ∧ render x.1.full = "s.x.a[1][2:5]" ∧
+    x.1.parent = some [.attr "x", .attr "a", .idx 1] ∧ x.1.tls = some [.attr "x"] := by
+  have h0 : Reach exRoot (rootItem exRoot) := .root
+  have h1 := Reach.slot h0 (slotItems_intro (d := exRoot) (name := "x") (ix := [])
+    (c := .mk (.sig .inport (.mk .struct [("a", .many [.one (.mk (.bits 8) []), .one (.mk (.bits 8) [])])])) []) rfl
+    (by simp [slotsOf, exRoot, Node.tag, Node.slots, List.lookup]) (by decide) rfl)
+  have h2 := Reach.field (a := "a") h1 (fieldItems_intro (ix := [1]) (t := .mk (.bits 8) []) rfl
+    (by simp [List.lookup]; rfl) rfl)
+  have h3 := Reach.slice (lo := 2) (hi := 5) h2 (by simp [sliceItem]; rfl)
+  exact ⟨_, h3, by decide, by decide, by decide⟩
+
+/-- the hypotheses of `slice_of_slice` are satisfiable: `s.y[2:10][1:4]` is `s.y[3:6]` -/
+example : resolve exRoot [.root, .attr "y", .slice 2 10, .slice 1 4] = resolve exRoot [.root, .attr "y", .slice 3 6] := by
+  rfl
+
+example : WFName [.root, .attr "in_", .idx 10, .attr "msg", .slice 0 16] :=
+  ⟨_, rfl, by
+    intro t ht
+    simp only [List.mem_cons, List.not_mem_nil, or_false] at ht
+    rcases ht with rfl | rfl | rfl | rfl <;> refine ⟨by simp, ?_⟩ <;> intro a ha <;> cases ha <;>
+      intro c hc <;> simp at hc <;> rcases hc with rfl | rfl | rfl <;> decide⟩
+
 end PV.C14
